@@ -545,6 +545,12 @@ class GVN:
             return self.lin1(self._n(pos[0]), lambda a: self.atom(fn, a, key))
         if fn in ("dot", "matmul") and len(pos) == 2:
             return self.bilin(self._n(pos[0]), self._n(pos[1]), lambda x, y: self.atom("matmul", x, y))
+        if fn in ("tensordot", "inner", "kron") and len(pos) == 2:
+            key = ",".join(self.sshow(x, maxdepth=3) for x in pos[2:]) + str(sorted((k, self.sshow(v)) for k, v in kws.items()))
+            return self.bilin(self._n(pos[0]), self._n(pos[1]), lambda x, y: self.atom(fn, x, y, key))
+        if fn in ("swapaxes", "moveaxis") and pos:
+            key = ",".join(self.sshow(x, maxdepth=3) for x in pos[1:]) + str(sorted((k, self.sshow(v)) for k, v in kws.items()))
+            return self.lin1(self._n(pos[0]), lambda a: self.atom(fn, a, key))
         if fn == "outer" and len(pos) == 2:
             return self.bilin(self._n(pos[0]), self._n(pos[1]), lambda x, y: self.atom("outer", x, y))
         if fn == "multiply" and len(pos) == 2:
@@ -863,8 +869,8 @@ def compare_forms(g: "GVN", a: Form, b: Form) -> str:
     # uninterpreted here, so a difference that involves one of them is a difference of notation as far as we can tell
     alt = {"tensordot", "swapaxes", "moveaxis", "rollaxis", "inner", "vdot", "kron", "multi_dot", "einsum_path",
            "broadcast_to", "expand_dims", "squeeze", "tile", "repeat", "apply_along_axis", "vectorize"}
-    unmodelled = {k for k in ka ^ kb if (k.startswith("fn:") and k.split(".")[-1].split(":")[-1] in alt)
-                  or k in ("vmapcall", "einsum_raw")}
+    unmodelled = {k for k in ka | kb if (k.startswith("fn:") and k.split(".")[-1].split(":")[-1] in alt)
+                  or k in alt or k in ("vmapcall", "einsum_raw")}
     trace_axes = any(g.atom_keys[x][0] == "trace" and len(g.atom_keys[x]) > 2 and "axis" in str(g.atom_keys[x][2])
                      for f_ in (da, db) for at in f_ for x in g._refs(g.atom_keys[at]) | {at})
     if unmodelled or trace_axes:
